@@ -17,11 +17,15 @@ StepEv(e) ==
                              /\ Len(e.mapctl) >= Len(e.targets)
                              /\ \A i \in 1..Len(e.targets) : e.mapctl[i] = e.targets[i].num
                              /\ e.links_consistent
-         g3 == exp # "ok" => ~e.created /\ e.nmods_after = e.nmods_before IN
+         g3 == exp # "ok" => ~e.created /\ e.nmods_after = e.nmods_before
+         \* macro(..., initial=v) feeds v once: the first (ranged) target then holds what feeding v through the finished
+         \* MultiCtl delivers - e.initial = << <<v, value found after macro(), value after feeding v again, 0>> >> or << >>
+         g4 == \A k \in 1..Len(e.initial) : e.initial[k][2] = e.initial[k][3] IN
      /\ Check(g1, "macro-outcome", exp, e.outcome)
      /\ Check(g2, "macro-created-and-linked", e.targets, <<e.created, e.attached, e.out_links, e.mapctl, e.links_consistent>>)
      /\ Check(g3, "macro-refusal-creates-nothing", e.nmods_before, e.nmods_after)
-     /\ ok' = (ok /\ g1 /\ g2 /\ g3))
+     /\ Check(exp # "ok" \/ g4, "macro-initial-not-delivered", "what feeding the same input delivers", e.initial)
+     /\ ok' = (ok /\ g1 /\ g2 /\ g3 /\ (exp # "ok" \/ g4)))
   [] e.op = "feed" ->
     (IF e.unmapped THEN         \* the mapping names no controller: the target stays untouched
         LET g == e.outcome = "ok" /\ e.rle = <<<<e.initial, 32769>>>> /\ e.others_unchanged IN
